@@ -41,10 +41,23 @@ def _cmp(pred, a, b, w):
     }.get(pred)
 
 
+def _ft(d):
+    return tuple(sorted(d.items(), key=lambda kv: repr(kv[0])))
+
+
 def _width(ty):
     if ty.startswith("i") and ty[1:].isdigit():
         return int(ty[1:])
     return 64
+
+
+class Fork:
+    """result item of on_inst that also updates facts: Fork(user_state, {key: value or None})"""
+    __slots__ = ("u", "delta")
+
+    def __init__(self, u, delta):
+        self.u = u
+        self.delta = delta
 
 
 class Walker:
@@ -115,6 +128,9 @@ class Walker:
                 if b == pred:
                     return self.ev(v, facts, None, depth + 1)
             return None
+        if op == "call":
+            # a call result whose value a client recorded with Fork(.., {("ret", id): v})
+            return facts.get(("ret", i.id))
         if op == "select":
             c = self.ev(i["cond"], facts, pred, depth + 1)
             if c is None:
@@ -149,7 +165,7 @@ class Walker:
            on_exit(ret_inst, ustate, facts)
            on_edge(branch_inst, succ, ustate, facts) -> ustate or None to prune"""
         fn = self.fn
-        start = (fn.blocks[0].id, None, ustate0, tuple(sorted((facts0 or {}).items())))
+        start = (fn.blocks[0].id, None, ustate0, _ft(facts0 or {}))
         seen = {start}
         work = deque([start])
         n = 0
@@ -179,7 +195,16 @@ class Walker:
                         nxt.append((u, facts))
                     else:
                         for u2 in r:
-                            nxt.append((u2, facts))
+                            if isinstance(u2, Fork):
+                                f2 = dict(facts)
+                                for k_, v_ in u2.delta.items():
+                                    if v_ is None:
+                                        f2.pop(k_, None)
+                                    else:
+                                        f2[k_] = v_
+                                nxt.append((u2.u, f2))
+                            else:
+                                nxt.append((u2, facts))
                 states = nxt
                 if not states:
                     break
@@ -194,7 +219,7 @@ class Walker:
                         continue
                     if term.op == "unreachable":
                         continue
-                    ft2 = tuple(sorted(facts.items()))
+                    ft2 = _ft(facts)
                     succs = None
                     if term.op == "br" and "cond" in term.d:
                         v = self.ev(term["cond"], facts, pred)
@@ -214,7 +239,7 @@ class Walker:
                                     f1[rc[0]] = 0
                                     if isbool:
                                         f0[rc[0]] = 1
-                                succs = [(term["t"], tuple(sorted(f1.items()))), (term["f"], tuple(sorted(f0.items())))]
+                                succs = [(term["t"], _ft(f1)), (term["f"], _ft(f0))]
                     elif term.op == "switch":
                         v = self.ev(term["cond"], facts, pred)
                         if v is not None:
